@@ -379,6 +379,12 @@ type nativeFunc struct {
 func (p *Path) callSSA(caller *frame, callpos token.Pos, fn *ssa.Function, args []Value, env []Value) Value {
 	fr := &frame{p: p, caller: caller, fn: fn}
 	if fn.Name() == "init" && fn.Pkg != nil && fn == fn.Pkg.Func("init") && !p.inInit[fn.Pkg] {
+		// a package initialiser calling the initialisers of its imports: initialisation is LAZY here — a package is
+		// initialised when one of its globals is first touched (or on verifInitPkg), not because something imports it.
+		// This keeps unrelated packages of a large import closure (os, net, flag, ...) out of every path.
+		if p.initDepth > 0 && !p.eng.cfg.EagerInit {
+			return nil
+		}
 		p.ensureInit(fn.Pkg)
 		return nil
 	}
